@@ -4,12 +4,17 @@ import mutate
 import report
 
 
-def baseline_keys(res):
-    return {f.key() for f in res.findings} | {f.key() for f in res.advisories}
+def baseline_keys(res, default_only=False):
+    fs = list(res.findings) + list(res.advisories)
+    if default_only:
+        # what the default configuration reports: findings that exist only under another -D setting are not
+        # part of the baseline a mutation witness is compared with
+        fs = [f for f in fs if getattr(f, "config", None) in (None, "default")]
+    return {f.key() for f in fs}
 
 
 def thorough_mutations(res, prop, runners):
-    mutate.run_mutations(res, prop, runners, baseline_keys(res))
+    mutate.run_mutations(res, prop, runners, baseline_keys(res, default_only=True))
 
 
 ASSUMPTIONS = [
@@ -22,7 +27,7 @@ ASSUMPTIONS = [
 
 
 CORE_UNITS = {"gc.c", "sexp.c", "bignum.c", "gc_heap.c", "opcodes.c", "vm.c", "eval.c", "simplify.c"}
-MATRIX = ["nosimplify", "custom_ll", "nothreads", "noextfcall", "norefcache"]
+MATRIX = ["nosimplify", "custom_ll", "nothreads", "noextfcall", "refcache"]
 
 
 def config_matrix(res, runner, violation, configs=MATRIX, units=CORE_UNITS):
